@@ -6,7 +6,7 @@ CONSTANTS
   MarkMod = 16
   Prod = {1, 2}
   Cons = {3, 4}
-  Prog <- Prog_pp
+  Prog <- Prog_pp21
   StartSet = {0, 6}
   Bug = "none"
 INVARIANTS ExactlyOnce FifoLinearizable PerProducerOrder CapacityBound NoTornSlot
